@@ -326,6 +326,19 @@ func str8Node() *Node {
 		Canon: func(v reflect.Value) string { return fmt.Sprintf("%q", v.String()) }}
 }
 
+// str8TaggedNode: the named string type is registered with a uint8 length prefix, the struct field's tag asks for
+// uint16 - the tag wins (documented precedence: registered settings < struct tag < call option).
+func str8TaggedNode() *Node {
+	n := str8Node()
+	n.Name = "Str8/tag-p2"
+	n.Tag = ",lenPrefix=uint16"
+	n.Ref = func(v reflect.Value, _ bool) ([]byte, error) {
+		s := v.String()
+		return append(le(2, uint64(len(s))), s...), nil
+	}
+	return n
+}
+
 func bytes8Node() *Node {
 	t := reflect.TypeOf(Bytes8{})
 	return &Node{Name: "Bytes8", Type: t, JSONable: true, Vals: vals(t, Bytes8(nil), Bytes8{7}, Bytes8{1, 2}),
@@ -864,7 +877,7 @@ func FieldKinds() []*Node {
 		ArrayOf(u16, 2, 1),
 		MapOf(u8, u16, 1, 0, 0), MapOf(s8, b8, 2, 0, 0), MapOf(u16, s8, 4, 1, 2),
 		inner, PtrTo(inner), Opt(PtrTo(inner)), Opt(IfaceNode(false)), Opt(IfaceNode(true)), EmbeddedNode(false), EmbeddedNode(true),
-		Omit(PtrTo(inner)), Omit(byName(leaves, "bigint")), Omit(u16), Omit(Opt(PtrTo(inner))), Omit(s8),
+		Omit(PtrTo(inner)), Omit(byName(leaves, "bigint")), Omit(u16), Omit(Opt(PtrTo(inner))), Omit(s8), str8TaggedNode(),
 	)
 	return out
 }
